@@ -9,6 +9,7 @@ structure definition (it never looks at the stream).
 from __future__ import annotations
 
 import datetime
+import json as _json
 import string
 import sys
 from fractions import Fraction
@@ -130,6 +131,24 @@ def fl(q):
     return q[0] / q[1]
 
 
+class Obj:
+    """a node-data class of the harness (":factory": Obj)"""
+
+    def __init__(self, **kw):
+        self.kw = kw
+
+
+FACTORIES = {"DictWrapper": (0, DictWrapper), "Obj": (1, Obj)}
+
+
+def make_cb(c):
+    if c[0] == "set":
+        return lambda data: data.__setitem__(c[1], c[2])
+    if c[0] == "del":
+        return lambda data: data.pop(c[1], None)
+    raise ValueError(c)
+
+
 def py_value(j):
     if j is None or isinstance(j, (bool, int, str)):
         return j
@@ -138,7 +157,9 @@ def py_value(j):
     if "d" in j:
         return datetime.date.fromordinal(j["d"])
     if "factory" in j:
-        return DictWrapper
+        return FACTORIES[j["factory"]][1]
+    if "cb" in j:
+        return make_cb(j["cb"])
     k = j["R"]
     p = fl(j["p"])
     if k == "RangeI":
@@ -213,27 +234,34 @@ def coq_value(j):
 
 def coq_sval(j):
     if isinstance(j, dict) and "factory" in j:
-        return "(SV VNone)"      # the value of ":factory" is popped; only DictWrapper is modelled
+        return f"(SV (VFac {FACTORIES[j['factory']][0]}))"
+    if isinstance(j, dict) and "cb" in j:
+        c = j["cb"]
+        return f"(SV (VCbSet {H.coq_text(c[1])} {H.z(c[2])}))" if c[0] == "set" else f"(SV (VCbDel {H.coq_text(c[1])}))"
     if not (isinstance(j, dict) and "R" in j):
         return f"(SV {coq_value(j)})"
+    return f"(SR {coq_rnd(j)})"
+
+
+def coq_rnd(j):
     k = j["R"]
     p = coq_q(j["p"])
     if k == "RangeI":
-        return f"(SR (RRangeI {H.z(j['lo'])} {H.z(j['hi'])} {p} {coq_value(j['none'])}))"
+        return f"(RRangeI {H.z(j['lo'])} {H.z(j['hi'])} {p} {coq_value(j['none'])})"
     if k == "RangeF":
-        return f"(SR (RRangeF {coq_q(j['lo'])} {coq_q(j['hi'])} {p} {coq_value(j['none'])}))"
+        return f"(RRangeF {coq_q(j['lo'])} {coq_q(j['hi'])} {p} {coq_value(j['none'])})"
     if k == "Date":
         days = j["days"] if j.get("days") is not None else j["max"] - j["min"]
-        return f"(SR (RDate {H.z(j['min'])} {H.z(days)} {H.coq_bool(j['stamp'])} {p}))"
+        return f"(RDate {H.z(j['min'])} {H.z(days)} {H.coq_bool(j['stamp'])} {p})"
     if k == "Value":
-        return f"(SR (RValue {coq_value(j['v'])} {p}))"
+        return f"(RValue {coq_value(j['v'])} {p})"
     if k == "SparseBool":
-        return f"(SR (RValue (VBool true) {p}))"
+        return f"(RValue (VBool true) {p})"
     if k == "Sample":
         cnt = "None" if j["counts"] is None else "(Some " + H.coq_list(H.z(c) for c in j["counts"]) + ")"
-        return f"(SR (RSample {H.coq_list(coq_value(v) for v in j['vals'])} {cnt} {p}))"
+        return f"(RSample {H.coq_list(coq_value(v) for v in j['vals'])} {cnt} {p})"
     if k in ("Text", "BlindText"):
-        return f"(SR (RText {p}))"
+        return f"(RText {p})"
     raise ValueError(j)
 
 
@@ -275,9 +303,17 @@ def obs_value(v):
 
 def obs_node(n):
     kind = n.kind if isinstance(n, TypedNode) else None
+    fac, items = data_of(n)
+    return [H.sx_kind(kind), fac, [[k, obs_value(v)] for k, v in items], [obs_node(c) for c in (n._children or [])]]
+
+
+def data_of(n):
     d = n.data
-    items = list(d._dict.items()) if type(d) is DictWrapper else [("?", repr(d))]
-    return [H.sx_kind(kind), [[k, obs_value(v)] for k, v in items], [obs_node(c) for c in (n._children or [])]]
+    if type(d) is DictWrapper:
+        return 0, list(d._dict.items())
+    if type(d) is Obj:
+        return 1, list(d.kw.items())
+    return 99, [("?", repr(d))]
 
 
 # ---------------------------------------------------------------------------
@@ -408,11 +444,7 @@ def oracle(desc, tree):
     rels = dict((p, cs) for p, cs in desc["relations"])
     why = []
 
-    def attrs_ok(m, node, i, path):
-        d = node.data
-        if type(d) is not DictWrapper:
-            return f"data: node at {path} carries {type(d).__name__}"
-        items = list(d._dict.items())
+    def align(m, items, i, path, wild=None, optional=None):
         pos = 0
         for k, j in m.items():
             if k in SPECIAL:
@@ -420,16 +452,38 @@ def oracle(desc, tree):
             if pos < len(items) and items[pos][0] == k:
                 v = items[pos][1]
                 pos += 1
+                if k == wild:
+                    continue
                 if is_rnd(j):
                     if not rnd_allows(j, v, i, path):
                         return f"random value: attribute {k!r} of node {path} = {v!r} not allowed by {j}"
                 elif not same(v, plain(j, i, path)):
                     return f"attribute: {k!r} of node {path} = {v!r}, expected {plain(j, i, path)!r}"
-            elif not (is_rnd(j) and rnd_may_skip(j)):
+            elif k != optional and not (is_rnd(j) and rnd_may_skip(j)):
                 return f"attribute missing: {k!r} of node {path} (have {[x[0] for x in items]})"
         if pos != len(items):
             return f"attribute unexpected: {items[pos][0]!r} of node {path}"
         return None
+
+    def attrs_ok(m, node, i, path):
+        fac, items = data_of(node)
+        want = FACTORIES[m[":factory"]["factory"]][0] if m.get(":factory") is not None else 0
+        if fac != want:
+            return f"data: node at {path} carries {type(node.data).__name__}"
+        cb = m.get(":callback")
+        if cb is None:
+            return align(m, items, i, path)
+        c = cb["cb"]
+        if c[0] == "set":        # the dict before the callback had the key (any value) or not (then it is the last one)
+            if not any(k == c[1] and same(v, c[2]) for k, v in items):
+                return f"callback: {c[1]!r} of node {path} not set to {c[2]!r}"
+            r = align(m, items, i, path, wild=c[1])
+            if r and items[-1][0] == c[1]:
+                r = align(m, items[:-1], i, path, optional=c[1]) and r
+            return r
+        if any(k == c[1] for k, v in items):
+            return f"callback: {c[1]!r} of node {path} not deleted"
+        return align(m, items, i, path, optional=c[1])
 
     def group_ok(ctype, m, group, path):
         for i, node in enumerate(group, 1):
@@ -503,7 +557,7 @@ def cyclic(desc):
         state[u] = 2
         return False
 
-    return dfs("__root__")
+    return "__root__" in rels and dfs("__root__")
 
 
 def ranks(desc):
@@ -567,7 +621,7 @@ class Prop:
         "randrange(a,b)=a+n mod (b-a), random()=(n mod d)/d, uniform(a,b)=a+(b-a)*random(), sample = index n mod total into the expanded population",
         "floats are fed exactly representable values (dyadic rationals), so float arithmetic in uniform() is exact",
         "D39 (domain): the relation graph restricted to relations that may create a child is acyclic",
-        "domain: :count resolves to int/bool/None; :factory is DictWrapper; no :callback; templates use only {idx}, {hier_idx}, {{, }}",
+        "domain: :count resolves to int/bool/None; :factory is DictWrapper or a keyword-argument class of the harness; :callback is absent or one of two families (set key to int, delete key); templates use only {idx}, {hier_idx}, {{, }}",
     ]
     manifest = dict(
         text=("Machine-checked theorems (Coq 8.16, no axioms) about an executable model of nutree/tree_generator.py in which the global "
@@ -588,6 +642,12 @@ class Prop:
     # ------------------------------------------------------------------ cases
     def descs(self, tier, rng):
         yield from CORPUS
+        for _ in range(60 if tier == "quick" else 400):
+            yield dict(ctor=gen_ctor(rng))
+        for _ in range(5 if tier == "quick" else 30):
+            d = gen_def(rng)
+            d["relations"] = [r for r in d["relations"] if r[0] != "__root__"]
+            yield dict(d, typed=rng.random() < 0.5, stream=gen_stream(rng))
         ndefs = 150 if tier == "quick" else 1500
         for _ in range(ndefs):
             d = gen_def(rng)
@@ -622,7 +682,26 @@ class Prop:
                 yield dict(desc, types=ty2)
 
     # -------------------------------------------------------------------- run
+    def run_ctor(self, desc):
+        j = desc["ctor"]
+        ok = True
+        with patched(Stream([])):
+            try:
+                py_value(j)
+            except AssertionError:
+                ok = False
+        p = Fraction(*j["p"])
+        k = j["R"]
+        want = 0 <= p <= 1 and not (k == "RangeI" and j["lo"] >= j["hi"]) and \
+            not (k == "RangeF" and Fraction(*j["lo"]) >= Fraction(*j["hi"])) and \
+            not (k == "Date" and (j["days"] if j.get("days") is not None else j["max"] - j["min"]) <= 0)
+        return Case(desc=desc, coq_input=f"(CCtor {coq_rnd(j)})", impl_obs=[-3, ok],
+                    oracle_fail=None if ok == want else f"constructor: {j} accepted={ok}", nontrivial=False,
+                    key=H.digest(desc), stats=dict(ctor=k, accepted=ok))
+
     def run(self, desc) -> Case:
+        if "ctor" in desc:
+            return self.run_ctor(desc)
         cls = TypedTree if desc["typed"] else Tree
         st = Stream(desc["stream"])
         fuel = len(desc["relations"]) + 1
@@ -639,10 +718,15 @@ class Prop:
         rk = ranks(desc)
         coq_rk = H.coq_list(f"({H.coq_text(t)}, {n})" for t, n in (rk or {}).items())
         coq_in = f"(CBuild {H.coq_bool(desc['typed'])} {coq_def(desc)} {fuel} {coq_rk} {coq_stream(desc['stream'])})"
+        no_root = not any(p == "__root__" for p, _ in desc["relations"])
         if err is not None:
+            refused = no_root and isinstance(err, AssertionError)      # assert "__root__" in relations
             return Case(desc=desc, coq_input=coq_in, impl_obs=[-2, H.err_class(err)],
-                        oracle_fail=f"crash: {type(err).__name__}: {err}", nontrivial=False, key=H.digest(desc),
-                        stats=dict(error=type(err).__name__))
+                        oracle_fail=None if refused else f"crash: {type(err).__name__}: {err}", nontrivial=False,
+                        key=H.digest(desc), stats=dict(error=type(err).__name__))
+        if no_root:
+            return Case(desc=desc, coq_input=coq_in, impl_obs=[0], oracle_fail="refusal: definition without '__root__' accepted",
+                        nontrivial=False, key=H.digest(desc))
         obs = [type(tree) is TypedTree, H.sx_opt(tree.name if desc.get("name") is not None else None),
                [obs_node(c) for c in (tree._root._children or [])], rk is not None]
         fail = oracle(desc, tree)
@@ -654,7 +738,8 @@ class Prop:
                     nontrivial=n >= 2 and st.pos >= 1, key=H.digest(desc),
                     stats=dict(nodes=min(n, 60) // 5 * 5, depth=depth, draws=min(st.pos, 100) // 10 * 10,
                                stream_exhausted=st.pos > len(st.draws), calls="+".join(kinds), typed=desc["typed"],
-                               in_theorem_domain=rk is not None))
+                               in_theorem_domain=rk is not None, uses_callback='":callback"' in _json.dumps(desc),
+                               uses_obj_factory='"Obj"' in _json.dumps(desc)))
 
     def run_cyclic(self, desc, cls, st):
         """D39: the code recurses without end; observed as RecursionError under a lowered limit."""
@@ -734,6 +819,30 @@ def gen_rnd(rng):
     return {"R": k, "p": p}
 
 
+def gen_ctor(rng):
+    j = gen_rnd(rng)
+    r = rng.random()
+    if r < 0.3:
+        j["p"] = rng.choice([[5, 4], [-1, 4], [2, 1], [1, 1], [0, 1], [9, 8]])
+    elif r < 0.6:
+        if j["R"] == "RangeI":
+            j["hi"] = j["lo"] - rng.randint(0, 2)
+        elif j["R"] == "RangeF":
+            j["hi"] = [j["lo"][0] - rng.randint(0, 2), 4]
+        elif j["R"] == "Date":
+            if j["days"] is not None:
+                j["days"] = -rng.randint(0, 2)
+            else:
+                j["max"] = j["min"] - rng.randint(0, 2)
+    return j
+
+
+def gen_callback(rng):
+    if rng.random() < 0.6:
+        return {"cb": ["set", rng.choice(KEYS + ["cb"]), rng.randint(0, 9)]}
+    return {"cb": ["del", rng.choice(KEYS)]}
+
+
 def gen_count(rng):
     r = rng.random()
     if r < 0.45:
@@ -767,6 +876,10 @@ def gen_def(rng):
         spec = gen_attrs(rng)
         if rng.random() < 0.8:
             spec.insert(rng.randint(0, len(spec)), [":count", gen_count(rng)])
+        if rng.random() < 0.12:
+            spec.insert(rng.randint(0, len(spec)), [":callback", gen_callback(rng)])
+        if rng.random() < 0.12:
+            spec.insert(rng.randint(0, len(spec)), [":factory", {"factory": rng.choice(["Obj", "DictWrapper"])}])
         return spec
 
     rels.append(["__root__", [[c, rel_spec()] for c in top]])
@@ -788,7 +901,9 @@ def gen_def(rng):
         if rng.random() < 0.6:
             star = gen_attrs(rng, 3, 0.3)
             if rng.random() < 0.5:
-                star.insert(0, [":factory", {"factory": "DictWrapper"}])
+                star.insert(0, [":factory", {"factory": rng.choice(["DictWrapper", "DictWrapper", "Obj"])}])
+            if rng.random() < 0.1:
+                star.append([":callback", gen_callback(rng)])
             if rng.random() < 0.2:
                 star.append([":count", gen_count(rng)])
             types.append(["*", star])
@@ -797,6 +912,10 @@ def gen_def(rng):
                 sp = gen_attrs(rng, 3, 0.3)
                 if rng.random() < 0.15:
                     sp.append([":count", gen_count(rng)])
+                if rng.random() < 0.12:
+                    sp.append([":callback", gen_callback(rng)])
+                if rng.random() < 0.12:
+                    sp.append([":factory", {"factory": rng.choice(["Obj", "DictWrapper"])}])
                 types.append([t, sp])
         if rng.random() < 0.3:
             rng.shuffle(types)
